@@ -46,6 +46,7 @@ def one(seed, checks):
 
 
 def main():
+    global SEEDED
     args = sys.argv[1:]
     allc = "--all" in args
     jobs = 6
@@ -63,7 +64,13 @@ def main():
         i = args.index("--checks")
         only = args[i + 1].split(",")
         del args[i:i + 2]
-    ids = [a for a in args if not a.startswith("--")] or sorted(x for x in os.listdir(SEEDED) if re.match(r"C\d\d-\d+$", x))
+    if "--dir" in args:
+        i = args.index("--dir")
+        SEEDED = args[i + 1]
+        del args[i:i + 2]
+        if out_path == os.path.join(HERE, "seeded", "RESULTS.json"):
+            out_path = os.path.join(SEEDED, "RESULTS.json")
+    ids = [a for a in args if not a.startswith("--")] or sorted(x for x in os.listdir(SEEDED) if re.match(r"C\d\d-b?\d+$", x))
     results = {}
     if os.path.exists(out_path):
         results = json.load(open(out_path))
